@@ -373,6 +373,8 @@ def run_call(case, ctx):
                 ctx.count('opt:add_outputs=%s' % case['add_outputs'])
             if case.get('result_labels') is not None:
                 ctx.count('opt:result_labels')
+                rl_ = case['result_labels']
+                A.CALLER_LABELS.update([rl_] if isinstance(rl_, str) else rl_)
             if f == 'add_sub_two_numbers':
                 ar.add_sub_two_numbers(c, ops[0], ops[1], big_endian=be)
             elif f == 'add_sub2':
